@@ -1037,14 +1037,17 @@ def mul_lemmas(app, mul=None):
     lim = c(1 << (h - 1))
     small = z3.And(X <= lim, X >= -lim, Y <= lim, Y >= -lim)
     out.append(z3.Implies(small, z3.And(P <= c(1 << (w2 - 2)), P >= -c(1 << (w2 - 2)))))
-    out.append(z3.Implies(z3.And(small, X > 0, Y > 0), P > 0))
-    out.append(z3.Implies(z3.And(small, X < 0, Y < 0), P > 0))
-    out.append(z3.Implies(z3.And(small, X > 0, Y < 0), P < 0))
-    out.append(z3.Implies(z3.And(small, X < 0, Y > 0), P < 0))
-    # |P| >= |X| when Y != 0 (no wrap for small operands)
+    # one operand may be as large as +-(2^h - 1) (a difference of two h-bit values): the product still cannot wrap
+    big = c((1 << h) - 1)
+    nowrap = z3.Or(z3.And(X <= big, X >= -big, Y <= lim, Y >= -lim), z3.And(Y <= big, Y >= -big, X <= lim, X >= -lim))
+    out.append(z3.Implies(z3.And(nowrap, X > 0, Y > 0), P > 0))
+    out.append(z3.Implies(z3.And(nowrap, X < 0, Y < 0), P > 0))
+    out.append(z3.Implies(z3.And(nowrap, X > 0, Y < 0), P < 0))
+    out.append(z3.Implies(z3.And(nowrap, X < 0, Y > 0), P < 0))
+    # |P| >= |X| when Y != 0, |P| >= |Y| when X != 0
     absv = lambda v: z3.If(v < 0, -v, v)
-    out.append(z3.Implies(z3.And(small, Y != 0), absv(P) >= absv(X)))
-    out.append(z3.Implies(z3.And(small, X != 0), absv(P) >= absv(Y)))
+    out.append(z3.Implies(z3.And(nowrap, Y != 0), absv(P) >= absv(X)))
+    out.append(z3.Implies(z3.And(nowrap, X != 0), absv(P) >= absv(Y)))
     return out
 
 
